@@ -20,6 +20,7 @@ type PropSpec struct {
 	Packages  []string   `json:"packages"`
 	Functions []FuncSpec `json:"functions"`
 	Bounded   []Bounded  `json:"bounded"`
+	Groups    []string   `json:"groups"`
 	Notes     []string   `json:"notes"`
 	Assumptions []string `json:"assumptions"`
 }
@@ -135,6 +136,10 @@ func CmdCheck(args []string) int {
 	if err != nil {
 		fmt.Println("ERROR: cannot load /repo with tag verif:", err)
 		return 2
+	}
+	w.Groups = map[string]bool{}
+	for _, g := range ps.Groups {
+		w.Groups[g] = true
 	}
 	if err := w.LoadContracts(); err != nil {
 		fmt.Println("ERROR: contract files:", err)
